@@ -51,6 +51,9 @@ def main():
         meta["title"] = title(readme)
         meta["needs_to_manifest"] = needs(readme)
         meta["round"] = 1 if sid[-1] in "AB" else 2
+        notes = json.load(open(os.path.join(ROOT, "NOTES.json")))
+        if sid in notes:
+            meta["note"] = notes[sid]
         runs = {}
         for lp in sorted(glob.glob(os.path.join(d, "check_*_*.log"))):
             m = re.match(r"check_(C\d\d)_(\w+)\.log", os.path.basename(lp))
